@@ -32,17 +32,17 @@ ConfsW2 == << Conf(<<3>>), Conf(<<2>>) >>
 Two == <<2>>
 Three == <<3>>
 Zero == <<>>
-\* C13 alphabets (scaled: 128 ~ 2^31, 255 ~ 2^32-1, 112 ~ 2^31-16, 111 ~ 2^31-17)
+\* C13 alphabets (scaled: 128 ~ 2^31, 255 ~ 2^32-1, 127 ~ 2^31-1)
 AlphaWideDur ==
   { [len |-> 1, dur |-> <<1>>,   cts |-> 0, sync |-> TRUE],
     [len |-> 1, dur |-> <<127>>, cts |-> 0, sync |-> FALSE],
     [len |-> 2, dur |-> <<128>>, cts |-> 1, sync |-> TRUE],
     [len |-> 1, dur |-> <<255>>, cts |-> 0, sync |-> TRUE] }
-AlphaWideLen ==
+AlphaWideLen ==        \* every size below 2^31 at real width: 127 ~ 2^31-1, 113 ~ 2^31-15, 112 ~ 2^31-16
   { [len |-> 1,   dur |-> <<2>>, cts |-> 0, sync |-> TRUE],
-    [len |-> 111, dur |-> <<2>>, cts |-> 0, sync |-> TRUE],
-    [len |-> 112, dur |-> <<1>>, cts |-> 0, sync |-> FALSE],
-    [len |-> 128, dur |-> <<2>>, cts |-> 0, sync |-> TRUE] }
+    [len |-> 112, dur |-> <<2>>, cts |-> 0, sync |-> TRUE],
+    [len |-> 113, dur |-> <<1>>, cts |-> 0, sync |-> FALSE],
+    [len |-> 127, dur |-> <<2>>, cts |-> 0, sync |-> TRUE] }
 AlphaPos ==
   { [len |-> 1, dur |-> <<1>>, cts |-> 0, sync |-> TRUE],
     [len |-> 2, dur |-> <<2>>, cts |-> 0, sync |-> FALSE],
